@@ -1576,7 +1576,9 @@ class Node:
         conn.state = PEER_DISCONNECTING
 
         peer = self._find_connection_peer(conn)
-        if peer:
+        if peer and peer.connection is conn:
+            # the DPR of a connection that merely names the peer says nothing
+            # about the peer's own connection
             peer.disconnect_reason = DISCONNECT_REASON_DPR
 
         self.send_message(conn, answer)
